@@ -373,6 +373,7 @@ class HTTP(BaseComponent):
                 res.body = value.value
                 self.fire(response(res))
             elif value.errors:
+                req.handled = True
                 error = value.value
                 _etype, evalue, _traceback = error
                 if isinstance(evalue, RedirectException):
@@ -390,6 +391,7 @@ class HTTP(BaseComponent):
                 value.event = e
                 value.notify = True
         elif isinstance(value, tuple):
+            req.handled = True
             _etype, evalue, _traceback = error = value
 
             if isinstance(evalue, RedirectException):
@@ -427,6 +429,11 @@ class HTTP(BaseComponent):
             return
 
         code = evalue.code if isinstance(evalue, HTTPException) else None
+
+        # answer a failed request once (see _on_request_failure)
+        if req.handled:
+            return
+        req.handled = True
 
         self.fire(httperror(req, res, code=code, error=(etype, evalue, etraceback)))
 
